@@ -496,7 +496,7 @@ package lang
 //@   ensures[C12] message: result.Message == msg
 //@   modifies nothing
 
-//@ func Evaluator.evalExpr [C01,C02,C07,C08,C11,C13,C15,C19,C20]
+//@ func Evaluator.evalExpr [C01,C02,C04,C07,C08,C09,C11,C13,C15,C19,C20]
 //@   modifies valueHeap, e.stackTop, e.returnVal, e.evalDepth
 //@   ensures[C20] depth-restored: e.evalDepth == old(e.evalDepth)
 //@   requires evOK(e) && expr != nil && !$faulted
@@ -524,7 +524,7 @@ package lang
 //@   assert[C13] object-literal-key-is-read-as-a-string-literal: istype(expr, *ExprObject) ==> $keyDone @ copyValue
 //@   after Evaluator.evalExpr: $recv = (ret1 == nil ? ret0.Value.Binding : $recv)
 //@   assert[C15] receiver-is-the-one-bound-at-lookup: arg2.Value.Binding == $recv @ Evaluator.callFunction
-//@   assert[C08,C09] operands-are-copied: arg2 @ Evaluator.evalExprList
+//@   assert[C04,C08,C09,C15] operands-are-copied: arg2 @ Evaluator.evalExprList
 //@   assert[C19] first-match-wins: $nmatch == 0 @ Evaluator.evalCaseMatch
 //@   assert[C19] body-only-after-match: $nmatch == 1 @ Evaluator.evalStatement
 //@   ensures[C19] block-body-yields-null: err == nil && istype(expr, *ExprMatch) && $ranBlock ==> result0.Value.Tag == ValueNil && fresh(result0)
@@ -572,6 +572,9 @@ package lang
 //@   ensures[C20] depth-restored: e.evalDepth == old(e.evalDepth)
 //@   requires evOK(e) && !$faulted
 //@   updates $faulted, $out
+//@   init $itemErr = nil
+//@   after Evaluator.evalExpr: $itemErr = ret1
+//@   ensures[C01,C02,C07] an-items-outcome-is-passed-on-unchanged: $itemErr != nil ==> err == $itemErr
 //@   ensures[C01] all-cells: err == nil ==> len(result0) == len(exprs)
 //@   ensures[C01] errkind: err == nil || isRT(err) || isFlow(err)
 //@   ensures[C02,C08,C20] stack-restored: stackKept(e, old(e.stackTop), err)
@@ -581,7 +584,7 @@ package lang
 //@   ensures[C09] copies-live-in-fresh-cells: err == nil && copy ==> (forall k int :: 0 <= k && k < len(result0) ==> fresh(result0[k]))
 //@   loop 0 invariant own-list: fresh(evaledExprs) && e.evalDepth == old(e.evalDepth)
 //@   loop 0 invariant[C09] copies-so-far-fresh: copy ==> (forall k int :: 0 <= k && k <= rangeindex ==> fresh(evaledExprs[k]))
-//@   loop 0 invariant protocol: evInv(e, old(e.stackTop)) && len(evaledExprs) == rangeindex + 1
+//@   loop 0 invariant protocol: evInv(e, old(e.stackTop)) && len(evaledExprs) == rangeindex + 1 && $itemErr == nil
 
 //@ func Evaluator.evalUnaryExpr [C01,C02,C05,C08,C11,C20]
 //@   modifies valueHeap, e.stackTop, e.returnVal, e.evalDepth
@@ -597,6 +600,9 @@ package lang
 //@   after Evaluator.evalExpr: $L = ($n == 1 ? ret0 : $L)
 //@   after Evaluator.evalExpr: $tL = ($n == 1 && ret1 == nil ? specTruthy(ret0.Value) : $tL)
 //@   after Evaluator.evalExpr: $numL = ($n == 1 && ret1 == nil ? specNum(ret0.Value) : $numL)
+//@   init $itemErr = nil
+//@   after Evaluator.evalExpr: $itemErr = ret1
+//@   ensures[C01,C02,C07] the-operands-outcome-is-passed-on-unchanged: $itemErr != nil ==> err == $itemErr
 //@   ensures[C05] not: expr.OpToken.Tag == Bang && err == nil ==> result0.Value.Tag == ValueBool && *result0.Value.Bool == !$tL
 //@   ensures[C05] unary-plus: expr.OpToken.Tag == Plus && err == nil ==> result0.Value.Tag == ValueNum && same(*result0.Value.Num, $numL)
 //@   ensures[C05] negate: expr.OpToken.Tag == Minus && err == nil ==> result0.Value.Tag == ValueNum && same(*result0.Value.Num, -$numL)
@@ -621,6 +627,9 @@ package lang
 //@   ensures[C01] errkind: err == nil || isRT(err) || isFlow(err)
 //@   ensures[C02,C08,C20] stack-restored: stackKept(e, old(e.stackTop), err)
 //@   ensures[C11] fault-latched: $faulted <==> isFault(err)
+//@   init $itemErr = nil
+//@   after Evaluator.evalExpr: $itemErr = ret1
+//@   ensures[C01,C02,C07] an-operands-outcome-is-passed-on-unchanged: $itemErr != nil ==> err == $itemErr
 //@   init $n = 0
 //@   after Evaluator.evalExpr: $n = $n + 1
 //@   after Evaluator.evalExpr: $L = ($n == 1 ? ret0 : $L)
@@ -1091,6 +1100,7 @@ package lang
 //@ ghost $sawEnd bool
 //@ ghost $keyDone bool
 //@ ghost $calleeSeen bool
+//@ ghost $itemErr error
 //@ ghost $litText string
 //@ func Parser.printStatement [C01,C13]
 //@   requires parserOK(p)
@@ -1224,12 +1234,15 @@ package lang
 
 //@ func computedMember [C01,C06]
 //@   implements parseRule.infix
+//@   ensures[C06] node-shape: result1 == nil ==> istype(result0, *ExprBinary) && as(result0, *ExprBinary).Left == arg1 && as(result0, *ExprBinary).OpToken.Tag == LSquare
 
 //@ func member [C01,C06]
 //@   implements parseRule.infix
+//@   ensures[C06] node-shape: result1 == nil ==> istype(result0, *ExprBinary) && as(result0, *ExprBinary).Left == arg1 && as(result0, *ExprBinary).OpToken.Tag == Dot
 
 //@ func call [C01,C06]
 //@   implements parseRule.infix
+//@   ensures[C06] node-shape: result1 == nil ==> istype(result0, *ExprCall) && as(result0, *ExprCall).Func == arg1
 
 // What can be assigned to (C11: anything else on the left of =, op=, ++ or -- is a syntax error): a name,
 // a member or an index expression.
@@ -1257,6 +1270,7 @@ package lang
 
 //@ func is [C01,C06]
 //@   implements parseRule.infix
+//@   ensures[C06] node-shape: result1 == nil ==> istype(result0, *ExprBinary) && as(result0, *ExprBinary).Left == arg1 && as(result0, *ExprBinary).OpToken.Tag == Is
 
 //@ func assign [C01,C06,C11]
 //@   implements parseRule.infix
